@@ -130,6 +130,12 @@ class Puppet(object):
         if wait and self.pid:
             return wait_state(self.pid, ('Z', None, 'T'))
 
+    def dump_self(self, sig, wait=True):
+        """die from `sig` with core files allowed (written, truncated, into the puppet's temporary directory)"""
+        self.cmd('D %d %s' % (sig, self.tmp))
+        if wait and self.pid:
+            return wait_state(self.pid, ('Z', None, 'T'))
+
     def received(self):
         return bytes.fromhex(self.cmd('R', 'r'))
 
